@@ -8,7 +8,7 @@ claim(
     "parameter slot over {None,-1,0,1,2,3}) plus seeded longer inputs, sync and async sources, and all/sampled tee "
     "consumer interleavings incl. concurrent consumers over a suspending source. Observational: says nothing about "
     "inputs outside the explored classes.",
-    "CPython 3.12 itertools/functools as reference; error agreement judged on exception class",
+    "CPython 3.12 itertools/functools as reference; error agreement judged on exception class; pass-through functions and tee also run with elements None/0/''/False",
     "DESIGN.md 5/C19",
 )
 
@@ -19,7 +19,7 @@ claim(
     "chunkings x both wrapped-stream kinds x every single call, plus seeded multi-call histories with feed_data and "
     "longer inputs; text: all 1-/2-cut splits of mixed 1-4-byte code point strings in 8 encodings and send->receive "
     "round trips. Observational; inputs outside these classes are not judged.",
-    "harness-owned wrapped streams deliver non-empty chunks; stdlib codecs as reference",
+    "harness-owned wrapped streams deliver non-empty chunks; stdlib codecs as reference; feed_data during a suspended call is judged by per-origin conservation (order undetermined there)",
     "DESIGN.md 5/C16",
 )
 
@@ -58,7 +58,7 @@ claim(
     "Held on every executed history: exhaustive sweep of the cycle at which the LAST clone of a side is closed (by an "
     "agent) with 1-3 peers blocked on the other side, plus seeded histories of clone/close/double close/ops after "
     "close with scope and native cancellations.",
-    "as C09; a handle is only closed by the actor using it (the statement speaks of peers)",
+    "as C09; handles are closed by their user or by a third party (also while their user is blocked on them); a ClosedResourceError is judged by the handle's state at the raise",
     "DESIGN.md 5/C13",
 )
 
@@ -68,13 +68,13 @@ claim(
     "Held on every executed schedule: exhaustive sweep of the cancel cycle x placement x victim x scope|native "
     "around one/two notifications over the 3-waiter base program, Event set/cancel sweeps, the complete refusal "
     "matrix (3 caller kinds x 3 methods x 0-2 queued waiters) on {stock, eager}, plus seeded random programs.",
-    "as C09; wait() raising (not returning) after a NATIVE cancel during its shielded re-acquire is outside the statement and only counted",
+    "as C09; refusal also right after release() handed the lock to a queued contender; wait() raising (not returning) after a NATIVE cancel during its shielded re-acquire is outside the statement and only counted",
     "DESIGN.md 5/C11",
 )
 
 claim(
     "C20",
-    "runtime monitor on a virtual-time loop in three strata: S1 sequential lock-step differential vs a reference LRU (functools.lru_cache / reference with ttl), S2 strict concurrent history oracle (unique tokens, overlap, staleness, cross-key blocking, retention), S3 same oracle with F3 symptoms classified by mechanism precondition",
+    "runtime monitor on a virtual-time loop in four strata (S4: concurrent warm-up without eviction, then sequential eviction pressure vs a reference LRU ordered by use): S1 sequential lock-step differential vs a reference LRU (functools.lru_cache / reference with ttl), S2 strict concurrent history oracle (unique tokens, overlap, staleness, cross-key blocking, retention), S3 same oracle with F3 symptoms classified by mechanism precondition",
     "Held (apart from the listed known finding F3) on every executed history: seeded sequential sequences over maxsize/typed/ttl "
     "with virtual clock jumps, seeded concurrent histories with suspensions, failures, scope and native cancellations.",
     "functools.lru_cache as reference where it applies; retained results counted via the public lru_cache_items RunVar; cache_info() not judged concurrently",
@@ -87,7 +87,7 @@ claim(
     "The declared table (every listed primitive in each state where it completes without waiting, Condition.wait and to_thread in a "
     "cancelled scope, reduce, the empty task group, all 20 itertools functions x 4 source kinds x parameters) is enumerated "
     "completely on asyncio, asyncio+eager and uvloop every run; thorough adds seeded parameter variation. Cells outside the table are not judged.",
-    "a call_soon callback queued before the call runs iff the call yielded; fast_acquire and *_nowait/close are exempt by the statement",
+    "a call_soon callback queued before the call runs iff the call yielded; fast_acquire and *_nowait/close are exempt by the statement; the cancelled-scope half runs in six shapes of a cancelled scope (plain, shielded+cancelled, cancelled parent, expired deadline with/without shield, shield set after cancel)",
     "DESIGN.md 5/C08",
 )
 
@@ -118,7 +118,7 @@ claim("C07", "runtime monitor: case analysis over the logged order of started(),
 
 claim("C14", "runtime monitor with real threads: thread-safe event monitor (global sequence numbers) over gated thread functions, online bound on concurrently running non-abandoned functions, offline identity/ordering oracle; sys.monitoring preemption amplification; asyncio debug mode",
       "Held on every executed call set: seeded call sets (1-12 calls vs limiter 1-4; return/raise/from_thread callbacks/check_cancelled probes; abandon_on_cancel on/off; nested scopes; cancels before start, while running, after the gate) with gate permutations and injected delays on asyncio(debug) and uvloop. Real-time: watchdog expiry is inconclusive.",
-      "OS thread scheduling plus injected pauses (only pauses the OS could add); wall-clock watchdogs are inconclusive, never violations, unless all thread functions are known to have ended",
+      "OS thread scheduling plus injected pauses (only pauses the OS could add); wall-clock watchdogs are inconclusive, never violations, unless all thread functions are known to have ended; a share of the cases lowers the class constant WorkerThread.MAX_IDLE_TIME (10 s) to 0-4 ms from the harness so that idle-worker pruning happens",
       "DESIGN.md 5/C14")
 claim("C15", "runtime monitor with real threads: exactly-once / routing / join oracle over a thread-safe event log of caller threads, portal tasks and a conductor thread; bounded-progress rule for future cancellation with a loop heartbeat; preemption amplification; known finding F14 classified by mechanism",
       "Held (apart from the listed known finding F14) on every executed case: 1-6 caller threads x 1-8 calls (sync, coroutine, gated tasks, start_task), future cancellation, explicit stop mid-way, normal / early / exceptional exit on asyncio and uvloop.",
@@ -126,10 +126,10 @@ claim("C15", "runtime monitor with real threads: exactly-once / routing / join o
       "DESIGN.md 5/C15")
 claim("C17", "fault enumeration by runtime monitoring: two real TLSStream endpoints over a harness-owned in-memory transport on the virtual-time loop; every ciphertext byte offset of the base session is cut in turn; position-dependent payload oracle; Deadlock detection for the pump loop",
       "Held on every executed session: cut offsets enumerated over the whole ciphertext of both directions (every offset in thorough, every 2nd in quick) x TLS 1.2/1.3 x standard_compatible on/off, chunk policies (1-byte, random, coalescing), seeded larger sessions (0 B .. 40 KB messages, both directions busy) with random cuts.",
-      "OpenSSL via ssl, trustme certificates; the Wire delivers in order and a cut drops everything after the offset",
+      "OpenSSL via ssl, trustme certificates; the Wire delivers in order and a cut drops everything after the offset; the transport's send() takes 1-4 cycles and rejects a second concurrent sender like SocketStream does; after a detected truncation a second receive and a send are issued",
       "DESIGN.md 5/C17")
 
 claim("C18", "runtime monitor on real sockets: position-dependent byte-stream oracle, chunk-size bounds, in-flight-bytes bound sampled while the reader is stalled (SO_SNDBUF/SO_RCVBUF pinned), EOF / closed-stream / busy-direction probes",
       "Held on every executed session: TCP loopback and UNIX sockets on asyncio and uvloop, both role assignments (accepted side reading / connecting side reading), message sizes 1 B..256 KiB and 1-2 MiB stall sessions, reader stalls before the first receive and mid-stream, full duplex, EOF by send_eof and aclose.",
-      "Linux loopback/AF_UNIX semantics; real time: sessions without completion inside the watchdog are inconclusive",
+      "Linux loopback/AF_UNIX semantics; real time: sessions without completion inside the watchdog are inconclusive; sessions over un-shrunk kernel buffers judge integrity/order only (no fixed capacity for the in-flight bound)",
       "DESIGN.md 5/C18")
